@@ -44,6 +44,7 @@ func (u *UTF8Reader) Reset(r io.Reader) {
 	u.Source = r
 	u.state = 0
 	u.codep = 0
+	u.accepted = 0
 }
 
 // Read implements io.Reader.
